@@ -346,3 +346,54 @@ def fact_compare(facts, left, opcls, right):
         if isinstance(op, mirror.get(want, ())) and same(l, right) and same(r, left):
             return True
     return False
+
+
+# ---- path enumeration through a structured block ---------------------------
+
+class PathItem:
+    __slots__ = ("stmt", "conds", "loops", "arm")
+
+    def __init__(self, stmt, conds, loops, arm=None):
+        self.stmt = stmt      # a simple statement, or the header of an If/For/While
+        self.conds = conds    # tuple of (If node, arm bool) taken inside the block
+        self.loops = loops    # tuple of For/While nodes entered inside the block
+        self.arm = arm        # for an If header: the arm this path takes
+
+
+def enumerate_paths(body, limit=4096):
+    """All acyclic paths through a statement list: every `if` contributes both
+    arms, loop bodies are traversed zero times and once (items carry the loop
+    they sit in), continue/break leave the innermost loop body, return/raise end
+    the path.  Returns a list of (items, terminator)."""
+    results = []
+
+    def rec(stmts, acc, conds, loops, k, loopk):
+        if len(results) >= limit:
+            return
+        if not stmts:
+            return k(acc)
+        st, rest = stmts[0], stmts[1:]
+        nxt = lambda a: rec(rest, a, conds, loops, k, loopk)
+        if isinstance(st, ast.If):
+            rec(st.body, acc + [PathItem(st, conds, loops, True)], conds + ((st, True),), loops, nxt, loopk)
+            rec(st.orelse, acc + [PathItem(st, conds, loops, False)], conds + ((st, False),), loops, nxt, loopk)
+        elif isinstance(st, (ast.For, ast.While)):
+            hdr = PathItem(st, conds, loops)
+            nxt(acc + [hdr])                                  # zero iterations
+            rec(st.body, acc + [hdr], conds, loops + (st,), nxt, nxt)   # one iteration
+        elif isinstance(st, ast.Try):
+            rec(st.body + st.orelse + st.finalbody, acc, conds, loops, nxt, loopk)
+        elif isinstance(st, ast.With):
+            rec(st.body, acc, conds, loops, nxt, loopk)
+        elif isinstance(st, (ast.Return, ast.Raise)):
+            results.append((acc + [PathItem(st, conds, loops)], st))
+        elif isinstance(st, (ast.Continue, ast.Break)):
+            if loopk is not None:
+                loopk(acc + [PathItem(st, conds, loops)])
+            else:
+                results.append((acc + [PathItem(st, conds, loops)], st))
+        else:
+            nxt(acc + [PathItem(st, conds, loops)])
+
+    rec(list(body), [], (), (), lambda a: results.append((a, None)), None)
+    return results
